@@ -20,7 +20,7 @@ import numpy as np
 from . import frdata as frd
 from . import statesp as ss
 from . import xferfcn as tf
-from .iosys import InputOutputSystem
+from .iosys import InputOutputSystem, common_timebase
 
 __all__ = ['series', 'parallel', 'negate', 'feedback', 'append', 'connect',
            'combine_tf', 'split_tf']
@@ -542,22 +542,13 @@ def combine_tf(tf_array, **kwargs):
 
     """
     # Find common timebase or raise error
-    dt_list = []
+    dt = None
     try:
         for row in tf_array:
             for tfn in row:
-                dt_list.append(getattr(tfn, "dt", None))
+                dt = common_timebase(dt, getattr(tfn, "dt", None))
     except OSError:
         raise ValueError("`tf_array` has too few dimensions.")
-    dt_set = set(dt_list)
-    dt_set.discard(None)
-    if len(dt_set) > 1:
-        raise ValueError("Time steps of transfer functions are "
-                         f"mismatched: {dt_set}")
-    elif len(dt_set) == 0:
-        dt = None
-    else:
-        dt = dt_set.pop()
     # Convert all entries to transfer function objects
     ensured_tf_array = []
     for row in tf_array:
@@ -691,11 +682,14 @@ def _ensure_tf(arraylike_or_tf, dt=None):
     # If the input is already a transfer function, return it right away
     if isinstance(arraylike_or_tf, tf.TransferFunction):
         # If timebases don't match, raise an exception
-        if (dt is not None) and (arraylike_or_tf.dt != dt):
-            raise ValueError(
-                f"`arraylike_or_tf.dt={arraylike_or_tf.dt}` does not match "
-                f"argument `dt={dt}`."
-            )
+        if dt is not None:
+            try:
+                common_timebase(arraylike_or_tf.dt, dt)
+            except ValueError:
+                raise ValueError(
+                    f"`arraylike_or_tf.dt={arraylike_or_tf.dt}` does not "
+                    f"match argument `dt={dt}`."
+                )
         return arraylike_or_tf
     if np.ndim(arraylike_or_tf) > 2:
         raise ValueError(
